@@ -7,6 +7,8 @@ Copy i uses two letters (p, q); the kinds of classes of a copy:
   X = p(p|q)*                          verified by brute force (no pack)
   D = p(p|q)+  (variant Y)   or  p(p|q)*  (variant E: the language of X under another name)
   bD = q D      C = X + bD             (variant F: bD = q X, no reverse rule needed)
+  variant Q: C = Aq + Y + gPq with Aq = (p|q)*q only obtainable as the quotient Pq / Ps of the product Pq = Aq x Ps
+             (Pq = words containing q, Ps = p*: the sibling is not an atom, the counted class has minimum size 1; gPq = g Pq)
   variant S: C = (p|q)+ = X + swap(X): a union rule with the *same* child class twice, told apart by the child index only
 Root R = g + C1 + ... + Ck  (`g` a one-letter atom). Everything the oracle needs is generated directly from these
 definitions (`words`), independently of the library. The classes duck-type upword.PW for the shared helpers
@@ -56,7 +58,17 @@ def _words(name, n, sig):
         return [p + t for t in _tails(p, q, n - 1)] if n >= lo else []
     if kind == "bD":
         return [q + w for w in _words(("X" if v == "F" else "D") + k, n - 1, sig)] if n >= 1 else []
+    if kind == "Aq":
+        return [t + q for t in _tails(p, q, n - 1)] if n >= 1 else []
+    if kind == "Ps":
+        return [p * n]
+    if kind == "Pq":
+        return [t for t in _tails(p, q, n) if q in t]
+    if kind == "gPq":
+        return ["g" + t for t in _words("Pq" + k, n - 1, sig)] if n >= 1 else []
     if kind == "C":
+        if v == "Q":
+            return _words("Aq" + k, n, sig) + _words("Y" + k, n, sig) + _words("gPq" + k, n, sig)
         if v == "S":
             return ["".join(t) for t in product((p, q), repeat=n)] if n >= 1 else []
         return _words("X" + k, n, sig) + _words("bD" + k, n, sig)
@@ -161,6 +173,10 @@ class GProd(_Table, CartesianProductStrategy):
         yield W("".join(objs))
 
     def forward_map(self, c, obj, children=None):
+        if c.name.startswith("Pq"):  # up to the last q, then the trailing p's
+            _, q = LETTERS[int(c.name[-1])]
+            i = str(obj).rindex(q) + 1
+            return (W(obj[:i]), W(obj[i:]))
         return (W(obj[:1]), W(obj[1:]))
 
 
@@ -243,6 +259,11 @@ def inner_pack(sig):
         if v == "S":
             sym["C" + k] = ("X" + k,)
             continue
+        if v == "Q":
+            union["C" + k] = ("Aq" + k, "Y" + k, "gPq" + k)
+            prod["gPq" + k] = ("G", "Pq" + k)
+            prod["Pq" + k] = ("Aq" + k, "Ps" + k)
+            continue
         union["C" + k] = ("X" + k, "bD" + k)
         if v == "Y":
             union["X" + k] = ("D" + k, "Y" + k)
@@ -253,7 +274,7 @@ def inner_pack(sig):
         else:
             prod["bD" + k] = ("T" + k, "X" + k)
     return StrategyPack(initial_strats=[GUnion(union), GProd(prod), GSym(sym)], inferral_strats=[], expansion_strats=[],
-                        ver_strats=[AtomStrategy(), GBrute(["X"])], name="inner")
+                        ver_strats=[AtomStrategy(), GBrute(["X", "Pq", "Ps"])], name="inner")
 
 
 class GPackVer(GBrute):
@@ -274,7 +295,7 @@ def build(cfg):
     if cfg.get("gram_flat"):  # the inner strategies applied directly: no class verified with a pack
         inner = inner_pack(sig)
         flat = StrategyPack(initial_strats=[GUnion({"R": ("G",) + tuple("C" + str(k) for k in range(len(sig)))})] + list(inner.initial_strats),
-                            inferral_strats=[], expansion_strats=[], ver_strats=[AtomStrategy(), GBrute(["X"])], name="flat")
+                            inferral_strats=[], expansion_strats=[], ver_strats=[AtomStrategy(), GBrute(["X", "Pq", "Ps"])], name="flat")
         if cfg["db"] == "RuleDBForest":
             from comb_spec_searcher.rule_db import RuleDBForest
 
